@@ -99,7 +99,7 @@ def gen_script(rnd, is_async, allow_big):
     nw = rnd.choice([0, 1, 1, 2, 3, 6, 12])
     pid = rnd.randrange(1, 1000)
     for i in range(nw):
-        size = rnd.choice([0, 1, 2, 7, 8, 63, 64, 65, 255, 1000, 4096, 8191, 8192, 16384, 65535, 65536, 65543, 131070] if allow_big else [0, 1, 2, 7, 8, 63, 64, 65, 255, 1000, 4096])
+        size = rnd.choice([0, 1, 2, 7, 8, 63, 64, 65, 255, 1000, 4096, 8191, 8192, 16384, 65535, 65536, 65543, 131070, 200000] if allow_big else [0, 1, 2, 7, 8, 63, 64, 65, 255, 1000, 4096])
         if size > 200000:
             size = 200000
         if rnd.random() < 0.3:
